@@ -216,4 +216,4 @@ func runWire(c Case) *vkit.Outcome {
 
 var propWire = vkit.NewProp([]string{P}, "c11wire", genWire, runWire)
 
-func TestC11Wire(t *testing.T) { propWire.Check(t) }
+func TestC11Wire(t *testing.T) { propWire.CrashFile = true; propWire.Check(t) }
